@@ -456,6 +456,8 @@ where
     // Refine the main partition using splitter s
     //
     fn refine_with_splitter(&mut self, s: &Splitter) {
+        #[cfg(aws_smt_strings_verif)]
+        self.verif_pick(s);
         let set = &mut FastSet::new(self.main_partition.num_blocks());
         self.collect_refinement_candidates(s, set);
         let self_refine = set.contains(s.block);
@@ -469,6 +471,8 @@ where
             // must be done last
             self.refine_block_with_splitter(s, s.block)
         }
+        #[cfg(aws_smt_strings_verif)]
+        self.verif_state("refined");
     }
 
     //
@@ -541,6 +545,8 @@ where
                 None => break,
             }
         }
+        #[cfg(aws_smt_strings_verif)]
+        self.verif_state("done");
         &self.main_partition
     }
 
@@ -570,6 +576,72 @@ where
             splitters,
         };
         m.init_main_partition();
+        #[cfg(aws_smt_strings_verif)]
+        m.verif_new();
         m
+    }
+}
+
+#[cfg(aws_smt_strings_verif)]
+impl<D, F> Minimizer<D, F>
+where
+    D: Fn(u32, u32) -> u32,
+    F: Fn(u32) -> bool,
+{
+    fn verif_sorted(it: impl Iterator<Item = u32>) -> Vec<u32> {
+        let mut v: Vec<u32> = it.collect();
+        v.sort_unstable();
+        v
+    }
+
+    fn verif_new(&self) {
+        use crate::verif_hooks::{emit, recording, Event};
+        if recording() {
+            let delta = (0..self.num_states)
+                .map(|s| (0..self.alphabet_size).map(|c| (self.delta)(s, c)).collect())
+                .collect();
+            let finals = (0..self.num_states).map(|s| (self.is_final)(s)).collect();
+            emit(Event::HopNew {
+                n: self.num_states,
+                m: self.alphabet_size,
+                delta,
+                finals,
+            });
+            self.verif_state("init");
+        }
+    }
+
+    fn verif_state(&self, what: &'static str) {
+        use crate::verif_hooks::{emit, recording, Event};
+        if recording() {
+            let main = &self.main_partition;
+            let blocks = (1..main.num_blocks())
+                .map(|b| Self::verif_sorted(main.block_elements(b)))
+                .collect();
+            let mut active = Vec::new();
+            for (i, l) in self.splitters.iter().enumerate() {
+                for s in l.iter() {
+                    if s.active {
+                        active.push((Self::verif_sorted(main.block_elements(i as u32)), s.char));
+                    }
+                }
+            }
+            emit(Event::HopState {
+                what,
+                blocks,
+                active,
+            });
+        }
+    }
+
+    fn verif_pick(&self, s: &Splitter) {
+        use crate::verif_hooks::{emit, recording, Event};
+        if recording() {
+            emit(Event::HopPick {
+                block: Self::verif_sorted(self.main_partition.block_elements(s.block)),
+                ch: s.char,
+                pred: Self::verif_sorted(self.pred_classes[s.char as usize].block_elements(s.class)),
+            });
+        }
     }
 }
